@@ -405,7 +405,21 @@ func (db *ContractDB) LoadContractFile(file, pkgPath string) {
 					errf("%v", err)
 					return
 				}
-				cl := &Clause{Kind: "at_call", Props: props, Text: text, Expr: e, Arg: pat, Line: loc}
+				// at_call <pattern> [in loop N | outside loops] requires ...: only those call sites
+				siteLoop := 0
+				if m := strings.Index(pat, " in loop "); m >= 0 {
+					n, err := strconv.Atoi(strings.TrimSpace(pat[m+9:]))
+					if err != nil {
+						errf("bad loop number in at_call")
+						return
+					}
+					siteLoop = n
+					pat = strings.TrimSpace(pat[:m])
+				} else if strings.HasSuffix(pat, " outside loops") {
+					siteLoop = -1
+					pat = strings.TrimSpace(strings.TrimSuffix(pat, " outside loops"))
+				}
+				cl := &Clause{Kind: "at_call", Props: props, Text: text, Expr: e, Arg: pat, Loop: siteLoop, Line: loc}
 				cl.Ord = len(cur.ClausesOf("at_call")) + 1
 				cur.Clauses = append(cur.Clauses, cl)
 			case "only_calls":
